@@ -32,6 +32,8 @@ pub enum QSpec {
     StoredOf(usize),
     /// the stored vector of the n-th live document plus a small perturbation
     Near(usize, u32),
+    /// one of three fixed pool queries (expanded from the pool seed): repeats hit the query cache
+    Pool(u8),
 }
 
 #[derive(Clone, Debug, Serialize, Deserialize)]
@@ -46,7 +48,11 @@ pub enum SOp {
     DeleteMany { percent: u8, salt: u8 },
     Flush,
     Restart,
-    Search { api: Api, q: QSpec, k: usize, ef: Option<usize> },
+    /// shared_scope: Some(s) = search in a small reused scope (the query-result cache may answer);
+    /// None = a fresh scope (answer comes from the tiers)
+    Search { api: Api, q: QSpec, k: usize, ef: Option<usize>, shared_scope: Option<u64> },
+    /// overwrite the document at position `pos` of the most recent search result with a new vector
+    OverwriteResult { pos: usize, vec: FVec },
 }
 
 #[derive(Clone, Debug, Serialize, Deserialize)]
@@ -88,7 +94,7 @@ impl Prop for C06 {
             .iter()
             .map(|c| {
                 let mut t = Tape::new(c);
-                match t.weighted(&[10, 5, 2, 5, 3, 2, 1, 22]) {
+                match t.weighted(&[10, 5, 2, 5, 3, 2, 1, 22, 4]) {
                     0 => SOp::Insert { id: 1 + t.below16(ID_SPACE as usize) as u64 % 24, vec: FVec(valid_vector(&mut t, cfg.dim, cfg.metric)) },
                     1 => SOp::InsertMany {
                         start: 1 + t.below16(ID_SPACE as usize) as u64,
@@ -102,12 +108,14 @@ impl Prop for C06 {
                     4 => SOp::DeleteMany { percent: t.pick(&[10u8, 50, 80, 95, 100]), salt: t.u8() },
                     5 => SOp::Flush,
                     6 => SOp::Restart,
+                    8 => SOp::OverwriteResult { pos: t.below(4), vec: FVec(valid_vector(&mut t, cfg.dim, cfg.metric)) },
                     _ => {
                         let api = t.pick(&[Api::TieredSync, Api::TieredSync, Api::TieredBatch, Api::TieredTimed, Api::ColdSingle, Api::ColdBatch]);
-                        let q = match t.weighted(&[5, 3, 3]) {
+                        let q = match t.weighted(&[5, 3, 3, 5]) {
                             0 => QSpec::Fresh(FVec(valid_vector(&mut t, cfg.dim, cfg.metric))),
                             1 => QSpec::StoredOf(t.below(64)),
-                            _ => QSpec::Near(t.below(64), t.u32()),
+                            2 => QSpec::Near(t.below(64), t.u32()),
+                            _ => QSpec::Pool(t.below(3) as u8),
                         };
                         let k = t.pick(&[1usize, 2, 3, 5, 10, 10, 50, 100, 1000]);
                         let ef = match t.below(5) {
@@ -116,7 +124,9 @@ impl Prop for C06 {
                             2 => Some(10_000),
                             _ => None,
                         };
-                        SOp::Search { api, q, k, ef }
+                        let shared_scope = if t.chance(if matches!(q, QSpec::Pool(_)) { 200 } else { 50 }) { Some(t.below(2) as u64) } else { None };
+                        let ef = if shared_scope.is_some() { None } else { ef };
+                        SOp::Search { api, q, k, ef, shared_scope }
                     }
                 }
             })
@@ -135,6 +145,7 @@ impl Prop for C06 {
         let mut churn = false;
         let mut slots = 0usize; // live + tombstones since last (re)build, approximate
         let mut scope_counter = 1000u64;
+        let mut last_result: Vec<u64> = vec![];
         let rt = tokio::runtime::Builder::new_current_thread().enable_time().build().map_err(|e| Failure::new("setup_failed", format!("{}", e)))?;
         let metric = cfg.metric;
 
@@ -209,6 +220,17 @@ impl Prop for C06 {
                         churn = true;
                     }
                 }
+                SOp::OverwriteResult { pos, vec } => {
+                    if let Some(id) = last_result.get(*pos % last_result.len().max(1)).copied() {
+                        if model.contains(id) {
+                            self.put(&te, &mut model, &mut recent, &mut churn, &mut slots, cfg, id, &vec.0, true, &mut rep).map_err(|mut f| {
+                                f.msg = at(f.msg);
+                                f
+                            })?;
+                            rep.label("overwrote_result_document");
+                        }
+                    }
+                }
                 SOp::Flush => {
                     te.engine.flush_hot_tier(true).map_err(|e| Failure::new("flush_failed", at(format!("{:#}", e))))?;
                     recent.clear();
@@ -222,13 +244,14 @@ impl Prop for C06 {
                         rep.label("restart");
                     }
                 }
-                SOp::Search { api, q, k, ef } => {
+                SOp::Search { api, q, k, ef, shared_scope } => {
                     let qv: Vec<f32> = match q {
                         QSpec::Fresh(v) => v.0.clone(),
                         QSpec::StoredOf(n) => match model.docs.iter().nth(*n % model.len().max(1)) {
                             Some((_, d)) => d.vec_f32(),
                             None => vector_of_class(VClass::Unit, *n as u64, cfg.dim, metric),
                         },
+                        QSpec::Pool(i) => vector_of_class(VClass::Gauss, 0xC06 + *i as u64, cfg.dim, metric),
                         QSpec::Near(n, s) => match model.docs.iter().nth(*n % model.len().max(1)) {
                             Some((_, d)) => {
                                 let base = d.vec_f32();
@@ -240,7 +263,8 @@ impl Prop for C06 {
                         },
                     };
                     scope_counter += 1;
-                    let scope = scope_counter; // fresh scope: never answered from the query cache
+                    // fresh scope: never answered from the query cache; shared scope: may be a CacheHit
+                    let scope = shared_scope.unwrap_or(scope_counter);
                     let tiered = matches!(api, Api::TieredSync | Api::TieredBatch | Api::TieredTimed);
                     let res: Result<(Vec<SearchResult>, Option<SearchExecutionPath>), anyhow::Error> = match api {
                         Api::TieredSync => te.engine.knn_search_with_ef_detailed_scoped(&qv, *k, *ef, scope).map(|(r, p)| (r, Some(p))),
@@ -268,9 +292,13 @@ impl Prop for C06 {
                         continue;
                     }
                     if path == Some(SearchExecutionPath::CacheHit) {
-                        return Err(Failure::new("unexpected_cache_hit", at("fresh scope answered from the query cache".into())));
+                        if shared_scope.is_none() {
+                            return Err(Failure::new("unexpected_cache_hit", at("fresh scope answered from the query cache".into())));
+                        }
+                        rep.label("answered_from_query_cache");
                     }
                     rep.count(&format!("path_{:?}", path), 1);
+                    last_result = results.iter().map(|r| r.doc_id).collect();
                     judge(&results, &qv, *k, metric, &model, if tiered { Some((&recent, &te)) } else { None }).map_err(|mut f| {
                         f.msg = at(f.msg);
                         f
@@ -456,7 +484,8 @@ fn sop_short(op: &SOp) -> String {
         SOp::DeleteMany { percent, .. } => format!("delete_many({}%)", percent),
         SOp::Flush => "flush".into(),
         SOp::Restart => "restart".into(),
-        SOp::Search { api, k, ef, .. } => format!("search({:?}, k={}, ef={:?})", api, k, ef),
+        SOp::OverwriteResult { pos, .. } => format!("overwrite_result(pos={})", pos),
+        SOp::Search { api, k, ef, shared_scope, .. } => format!("search({:?}, k={}, ef={:?}, scope={:?})", api, k, ef, shared_scope),
     }
 }
 
